@@ -58,25 +58,31 @@ MEM_DIR = "/tmp"          # an existing directory: buildLoad chdir()s to the dir
 # PyThreadState_SetAsyncExc and keeps re-injecting every 50 ms until the guarded block is left.
 
 class _Monitor(threading.Thread):
+    """Lock-free on purpose: the main thread only stores one attribute (atomic under the GIL), so an
+    injected exception can never leave a lock held."""
+
     def __init__(self):
         super().__init__(daemon=True, name="verif-watchdog")
-        self.cv = threading.Condition()
-        self.deadline = None
+        self.state = None          # None (disarmed) or (generation, deadline)
+        self.gen = 0
         self.target = threading.main_thread().ident
         self.pid = os.getpid()
 
     def run(self):
+        last_gen, next_fire = None, 0.0
+        inject = ctypes.pythonapi.PyThreadState_SetAsyncExc
+        target = ctypes.c_ulong(self.target)
+        exc = ctypes.py_object(core.Watchdog)
         while True:
-            with self.cv:
-                while self.deadline is None:
-                    self.cv.wait()
-                now = time.monotonic()
-                if now < self.deadline:
-                    self.cv.wait(self.deadline - now)
-                    continue
-                ctypes.pythonapi.PyThreadState_SetAsyncExc(ctypes.c_ulong(self.target),
-                                                           ctypes.py_object(core.Watchdog))
-                self.deadline = now + 0.05
+            time.sleep(0.01)
+            st = self.state
+            if st is None:
+                continue
+            if st[0] != last_gen:
+                last_gen, next_fire = st
+            if time.monotonic() >= next_fire and self.state is st:
+                inject(target, exc)
+                next_fire = time.monotonic() + 0.05
 
 
 _MON = [None]
@@ -93,16 +99,14 @@ def _monitor():
 @contextlib.contextmanager
 def _watchdog(seconds):
     m = _monitor()
-    with m.cv:
-        m.deadline = time.monotonic() + seconds
-        m.cv.notify()
+    m.gen += 1
+    m.state = (m.gen, time.monotonic() + seconds)
     try:
         yield
     finally:
         while True:
             try:
-                with m.cv:
-                    m.deadline = None
+                m.state = None
                 ctypes.pythonapi.PyThreadState_SetAsyncExc(ctypes.c_ulong(m.target), None)   # drop a pending one
                 break
             except core.Watchdog:
